@@ -45,7 +45,7 @@ def prepare_scratch(repo, files=None):
             continue
         base_lines = open(tgt).read().count('\n')
         with open(tgt, 'a') as fh:
-            fh.write('\n#[cfg(any(kani, verif_replay))]\n#[allow(dead_code, unused_imports, unused_variables, unused_mut, clippy::all)]\nmod verif {\n    use super::*;\n')
+            fh.write('\n#[cfg(any(kani, verif_replay))]\n#[allow(dead_code, unused_imports, unused_variables, unused_mut, clippy::all)]\npub(crate) mod verif {\n    use super::*;\n')
             fh.write(open(os.path.join(HARNESS_DIR, hf)).read())
             fh.write('\n}\n')
         injected[hf] = {'target': _target_of(hf), 'line_offset': base_lines + 5}
